@@ -136,6 +136,7 @@ func c02(c *core.Ctx) string {
 	c02Callers(c, a)
 	c02GlobalFilterWiring(c, a)
 	c02Validate(c, a)
+	c02UseNamespace(c)
 	c02Results(c)
 	return expl
 }
